@@ -73,6 +73,7 @@ func seqAlphabet(era drive.Era) []seqEvent {
 		{name: "Du", submit: []seqTx{{name: "dup", dup: true}}},
 		{name: "P", rates: R1(), submit: one("A:usd>PEG", KA, kit.Conversion(A, "pUSD", U/10*3, "PEG"))},
 		{name: "K", rates: R1(), submit: one("A>A,A>B", KA, kit.Transfer(A, "pUSD", x, A), kit.Transfer(A, "pUSD", x, B))},
+		{name: "K2", rates: R2(), submit: one("A>B,A>A", KA, kit.Transfer(A, "pUSD", x, B), kit.Transfer(A, "pUSD", x, A))},
 		{name: "F", rates: R2(), submit: one("A:usd>fct", KA, kit.Conversion(A, "pUSD", U/10, "pFCT"))},
 		{name: "S", rates: R1(), submit: one("A:usd>dcr,A:usd>eur", KA, kit.Conversion(A, "pUSD", U/10, "pDCR"), kit.Conversion(A, "pUSD", U/10, "pEUR"))},
 		{name: "W", rates: R1(), weak: true, submit: one("A:usd>eur", KA, kit.Conversion(A, "pUSD", U/10, "pEUR"))},
@@ -331,6 +332,15 @@ type seqEra struct {
 	era    drive.Era
 	depth  int
 	prefix func(b *drive.Builder)
+	warm   bool // the root continues the node that synced the prefix (warm averaging cache) instead of restarting it
+}
+
+// seqGapPrefix: funding, one graded block, one block without price records: with a warm cache the next
+// rated height is not the successor of the cached one, which sends the averaging code down its reload path
+func seqGapPrefix(b *drive.Builder) {
+	FundStd(b)
+	b.Add(drive.BlockSpec{Rates: R2(), OPRPayTo: kit.AddrStr(KM)})
+	b.AddEmpty(1)
 }
 
 // seqBoundary returns the interior era `stage` with the activations of the next stage moved to
@@ -359,12 +369,14 @@ func seqBoundary(stage int) drive.Era {
 
 // seqSnapshotPrefix funds the actors, idles to height 425 and grades 426..429: the sequences then
 // cover heights 430.. across the staking snapshot / developer payout height 432.
-func seqSnapshotPrefix(b *drive.Builder) {
+func seqSnapshotPrefix(b *drive.Builder) { seqSnapshotPrefixTo(b, 430) }
+
+func seqSnapshotPrefixTo(b *drive.Builder, first uint32) {
 	FundStd(b)
-	for b.Next() < 426 {
+	for b.Next() < first-4 {
 		b.AddEmpty(1)
 	}
-	for b.Next() < 430 {
+	for b.Next() < first {
 		b.Add(drive.BlockSpec{Rates: R1(), OPRPayTo: kit.AddrStr(KM)})
 	}
 }
@@ -395,7 +407,7 @@ func seqReplay(c *core.Ctx, r *core.Result, prop string) {
 		}
 		w := MustWorld(pl.era, pl.prefix)
 		defer w.Close()
-		x := &seqX{c: c, r: r, era: pl.era, alpha: alpha, prop: prop}
+		x := &seqX{c: c, r: r, era: pl.era, alpha: alpha, prop: prop, warm: pl.warm}
 		n := x.root(w)
 		for i, ei := range seq {
 			nn, ok := x.step(n, ei, i == len(seq)-1)
@@ -411,21 +423,30 @@ func seqReplay(c *core.Ctx, r *core.Result, prop string) {
 }
 
 func seqPlanFor(thorough bool, prop string) []seqEra {
-	st := func(stage, depth int) seqEra { return seqEra{drive.EraStage(stage), depth, FundStd} }
-	bd := func(stage, depth int) seqEra { return seqEra{seqBoundary(stage), depth, FundStd} }
+	st := func(stage, depth int) seqEra { return seqEra{era: drive.EraStage(stage), depth: depth, prefix: FundStd} }
+	bd := func(stage, depth int) seqEra { return seqEra{era: seqBoundary(stage), depth: depth, prefix: FundStd} }
+	gap := func(depth int) seqEra {
+		e := drive.EraStage(drive.StPIP10)
+		e.Name += "-warm-after-gap"
+		return seqEra{era: e, depth: depth, prefix: seqGapPrefix, warm: true}
+	}
 	sn := func(stage, depth int) seqEra {
 		e := drive.EraStage(stage)
 		e.Name += "-across-snapshot"
-		return seqEra{e, depth, seqSnapshotPrefix}
+		return seqEra{era: e, depth: depth, prefix: seqSnapshotPrefix}
 	}
+	// quick: the sequences across the snapshot start at 431 so that depth 2 reaches the snapshot block 432
+	eq := drive.EraStage(drive.StPIP10)
+	eq.Name += "-across-snapshot-from-431"
+	snq := seqEra{era: eq, depth: 2, prefix: func(b *drive.Builder) { seqSnapshotPrefixTo(b, 431) }}
 	if !thorough {
-		return []seqEra{st(drive.StPIP10, 3), st(drive.StV4, 2), st(drive.StV202, 2), bd(drive.StV4, 2), bd(drive.StV204Burn, 2), bd(drive.StV20Dev, 2), bd(drive.StOneWayFCT, 2), sn(drive.StPIP10, 3)}
+		return []seqEra{st(drive.StPIP10, 3), st(drive.StV4, 2), st(drive.StV202, 2), bd(drive.StV4, 2), bd(drive.StV204Burn, 2), bd(drive.StV20Dev, 2), bd(drive.StOneWayFCT, 2), snq, gap(2)}
 	}
 	// thorough: depth 3 everywhere, depth 4 in the current era and in one more era that depends on the property
 	// (the six properties share the explorer; between them every listed era is covered to depth 4)
 	plan := []seqEra{st(drive.StPIP10, 4), st(drive.StV202, 3), st(drive.StV4, 3), st(drive.StV20, 3), st(drive.StOneWayFCT, 3), st(drive.StBank, 3), st(drive.StPegPrice, 3),
 		bd(drive.StV4, 3), bd(drive.StV20Dev, 3), bd(drive.StV204Burn, 3), bd(drive.StPegPrice, 3), bd(drive.StOneWayFCT, 3), bd(drive.StBank, 3),
-		sn(drive.StPIP10, 3), sn(drive.StV202, 3), sn(drive.StV20Dev, 3)}
+		sn(drive.StPIP10, 3), sn(drive.StV202, 3), sn(drive.StV20Dev, 3), gap(4)}
 	deep := map[string]int{"C03": 2, "C04": 1, "C06": 13, "C07": 9, "C11": 5, "C13": 7, "C17": 14}
 	if i, ok := deep[prop]; ok {
 		plan[i].depth = 4
@@ -439,7 +460,7 @@ func seqPlanFor(thorough bool, prop string) []seqEra {
 
 var seqProps = []string{"C03", "C04", "C06", "C07", "C11", "C13", "C17"}
 
-const seqRule = " PLUS the sequence family: every sequence of block events (alphabet of 19: ungraded / graded at two rate vectors, transfers A>B and B>A, conversions submitted in graded and ungraded blocks, a two-entry block, byte-identical copies of the previous entry, a PEG request, a chained batch, conversions into pFCT and into a small asset, a conversion whose output the same batch spends, a block with too few price records, an FCT burn with a pFCT conversion, a transfer whose outputs equal its input only modulo 2^64) up to the stated depth from a funded state in several eras; after EVERY block the balances of the three actors and the miner and the status of every submitted entry are compared with a reference ledger kept in maps; this property reports the discrepancies of its class"
+const seqRule = " PLUS the sequence family: every sequence of block events (alphabet of 20: ungraded / graded at two rate vectors, transfers A>B and B>A, conversions submitted in graded and ungraded blocks, a two-entry block, byte-identical copies of the previous entry, a PEG request, a chained batch in both orders, conversions into pFCT and into a small asset, a conversion whose output the same batch spends, a block with too few price records, an FCT burn with a pFCT conversion, a transfer whose outputs equal its input only modulo 2^64) up to the stated depth from a funded state in several eras; after EVERY block the balances of the three actors and the miner and the status of every submitted entry are compared with a reference ledger kept in maps; this property reports the discrepancies of its class"
 
 // files of a package are initialised in file-name order, so the drivers are registered by now
 func init() {
@@ -470,7 +491,7 @@ func seqExplore(c *core.Ctx, r *core.Result, prop string) {
 	idx := 0
 	for _, pl := range seqPlanFor(c.Thorough(), prop) {
 		alpha := seqAlphabet(pl.era)
-		x := &seqX{c: c, r: r, era: pl.era, alpha: alpha, prop: prop}
+		x := &seqX{c: c, r: r, era: pl.era, alpha: alpha, prop: prop, warm: pl.warm}
 		var w *World
 		var root *seqNode
 		// the first two levels are sharded over the worker processes
@@ -525,6 +546,7 @@ type seqX struct {
 	era   drive.Era
 	alpha []seqEvent
 	prop  string
+	warm  bool
 }
 
 // seqNode is a clone of the system between two blocks.
@@ -587,7 +609,11 @@ func (x *seqX) root(w *World) *seqNode {
 	}
 	m.lastRated = pre.LastRatedBefore(w.B.Next())
 	// the world's template database was synced by a node that has since stopped: the root is a restarted node (cold cache)
-	return &seqNode{b: w.B, dir: w.Dir, m: m}
+	n := &seqNode{b: w.B, dir: w.Dir, m: m}
+	if x.warm {
+		n.cache = w.Cache
+	}
+	return n
 }
 
 func (x *seqX) dfs(n *seqNode, left int) {
